@@ -104,6 +104,12 @@ def generate(rng, tier):
                 c2["pre_doc"] = (F(float(c2["dw"]) + e1), F(float(c2["dh"]) + e2))
             if c2["dw"] > 0 and c2["dh"] > 0 and c2["pre_doc"][0] > 0 and c2["pre_doc"][1] > 0:
                 c2["family"] = fam + "/after-a-call-for-nearly-the-same-page"; cases.append(c2)
+    # the same requests in an interpreter started with -O, where assert statements are skipped: input validation must not live in
+    # assertions (non-positive and malformed sizes, and a few ordinary ones)
+    picks = [c for c in cases if "non-positive" in c["family"] or "vb-" in c["family"]]
+    rng.shuffle(picks)
+    for c in picks[:(24 if tier == "quick" else 150)] + [c for c in cases if c["family"] == "valid"][:6]:
+        cases.append(dict(c, optimized=True, family=c["family"] + "/python-O"))
     # extreme but legal magnitudes: page and viewBox sizes around 1e200 (products of two of them are not doubles) or 1e-170 (products
     # underflow to zero), every alignment with meet and slice, both relative shapes; the ratios the function needs are all ordinary
     for mag in ("1e200", "2e200", "1e-170", "3e-170", "1e154", "1e-162"):
@@ -115,9 +121,27 @@ def generate(rng, tier):
                 cases.append({"vb": "0 0 %s %s" % (w, h), "par": " ".join(toks), "dw": F(dwf), "dh": F(dhf), "family": "valid/extreme-magnitude/" + mag})
     return cases
 
+_OPT_SNIPPET = ("import sys, json; sys.path.insert(0, sys.argv[1]); from plotink import plot_utils\n"
+                "out = []\n"
+                "for vb, par, dw, dh in json.loads(sys.stdin.read()):\n"
+                "    try: out.append([float(x).hex() for x in plot_utils.vb_scale(vb, par, dw, dh)])\n"
+                "    except BaseException as e: out.append(type(e).__name__)\n"
+                "print(json.dumps(out))")
+
+def _run_optimized(c, dw, dh):
+    """the same call in an interpreter started with -O (assert statements are not executed there: a deployment option, not an input)"""
+    import subprocess, json, sys, common
+    p = subprocess.run([sys.executable, "-O", "-c", _OPT_SNIPPET, common.REPO], input=json.dumps([[c["vb"], c["par"], dw, dh]]), capture_output=True, text=True, timeout=120)
+    if p.returncode != 0: return {"raise": "SubprocessFailed", "msg": p.stderr[-300:]}
+    r = json.loads(p.stdout.strip().splitlines()[-1])[0]
+    if isinstance(r, str): return {"raise": r, "msg": "raised under python -O"}
+    return {"r": [F(float.fromhex(x)) for x in r]}
+
 def run_impl(c):
     dw = float(c["dw"]) if c["dw"].denominator != 1 else int(c["dw"])
     dh = float(c["dh"]) if c["dh"].denominator != 1 else int(c["dh"])
+    if c.get("optimized"):
+        return _run_optimized(c, dw, dh)
     if "pre_doc" in c:
         # the same viewBox and preserveAspectRatio were scaled a moment ago for a page of nearly, not exactly, the same size
         try: plot_utils.vb_scale(c["vb"], c["par"], float(c["pre_doc"][0]), float(c["pre_doc"][1]))
